@@ -353,7 +353,7 @@ struct AbortHistory;
 /// Oracles of these properties compare identities / counts of yielded values with the model: once one of them has fired the
 /// model and the real collection have diverged and later observations of the same history mean nothing.  Oracles of the other
 /// properties (justification of Pending, limits, hints, addresses, poll counts) do not disturb the run.
-const CORRUPTING: [&str; 7] = ["C02", "C04", "C05", "C06", "C07", "C10", "C11"];
+const CORRUPTING: [&str; 6] = ["C02", "C05", "C06", "C07", "C10", "C11"];
 thread_local! { static LAST_PANIC: RefCell<String> = RefCell::new(String::new()); }
 fn install_panic_hook() {
     std::panic::set_hook(Box::new(|info| {
